@@ -11,7 +11,7 @@ RULE = ('Hypothesis draws configuration and a history mixing ordinary client tra
         'JSONP, Origin, partial upgrade headers, malformed bodies: bad digits, bad base64, deep '
         'JSON, invalid UTF-8, empty, huge counts, bad Content-Length, mixed-case / q-valued Accept-Encoding with compression on, a 1100-character sid, echoed headers with non-latin-1 text), issued at every point of '
         'the history with and without a poll pending and with the client gone, plus '
-        'send()/disconnect(sid)/disconnect() in every state including an empty table. Oracle: '
+        'send()/disconnect(sid)/disconnect() in every state including an empty table, and send() called by the message handler itself. Oracle: '
         'gateway validators (WSGI: start_response once, status line, (str,str) headers, iterable '
         'of bytes; ASGI: one response start then body; websocket scopes: only websocket events in '
         'legal order), status in {200,400,401,405}, no exception escapes a non-upgrade request, '
@@ -107,6 +107,20 @@ def collect(ex, final):
             out.append(V(ex, 'api-call-never-returns', call_trigger(ex, c),
                          '%s%r issued at %.3f has not returned by %.3f' % (
                              c.name, c.args, c.t_start - 2 ** 20, ex.now - 2 ** 20)))
+    # send() called by the message handler itself (from inside a request or a reader)
+    for s in ex.sessions:
+        for x in s.app_sent:
+            c = x['call']
+            if not x.get('in_handler'):
+                continue
+            if c.done and c.exc is not None:
+                out.append(V(ex, 'api-call-raised', 'send|from-message-handler|%s' % (
+                    type(c.exc).__name__), 'send%r called by the message handler raised %r' % (
+                        c.args, c.exc)))
+            if final and not c.done and ex.now - c.t_start > ex.I + ex.T + 1:
+                out.append(V(ex, 'api-call-never-returns', 'send|from-message-handler',
+                             'send%r called by the message handler at %.3f has not returned by '
+                             '%.3f' % (c.args, c.t_start - 2 ** 20, ex.now - 2 ** 20)))
     return out
 
 
@@ -157,6 +171,7 @@ PROFILE = {
                 'ws_fail': 1, 'pong': 1, 'app_send': 2, 'app_disconnect': 3, 'advance': 2,
                 'fault': 1, 'vanish': 1, 'request': 9},
     'max_sessions': 3,
+    'reactions': [('echo', 30)],     # the message handler itself calls send() before returning
     'packet_kinds': [('msg', 3), ('pong', 1), ('close', 1), ('upgrade', 1), ('bad', 3), ('noise', 1)],
     'post_modes': [('pkts', 5), ('raw', 3), ('many', 1)],
     'config': {'compression_threshold': st.sampled_from([0, 1024]),
@@ -188,6 +203,8 @@ def summarize(ex):
             nt = True
     if any(s.vanished for s in ex.sessions):
         cls.add('client-vanished')
+    if any(x.get('in_handler') for s in ex.sessions for x in s.app_sent):
+        cls.add('send-called-by-message-handler')
     return {'requests': len(ex.world.reqs), 'calls': len(ex.world.calls)}, nt, sorted(cls)
 
 
